@@ -8,5 +8,6 @@ for id in "$@"; do
   end=$(date +%s)
   echo "== $id on $w rc=$rc wall=$((end-start))s"
   echo "$out" | grep -e '^VIOLATION' -B1 | grep -v '^--' | cut -c1-330 | head -4
+  echo "$out" | grep -e '^INFRA: unconfirmed' | cut -c1-330 | head -3
 done
 rm -rf /verif/replays
